@@ -166,7 +166,7 @@ func badCase(r *SeqReport, seen map[string]bool, n int, pos []int, bad any, badN
 func init() {
 	run := func(r *SeqReport, deep bool) {
 		seen := map[string]bool{}
-		ids := []string{"", "a", "job-ü-✓", "q\"uo\\te", "line sep\nnl", strings.Repeat("x", 300)}
+		ids := []string{"", "a", "job-ü-✓", "q\"uo\\te", "line\u2028sep\nnl\ttab", strings.Repeat("x", 300), "ctl\x00\x01\a\v\x1b\x7f", "\U000e0001<&>"}
 		vias := []string{"pers", "persprio", "dist"}
 		for _, via := range vias {
 			for _, id := range ids {
